@@ -36,12 +36,12 @@ Definition exact_unpack (dd : dt) (s o : option (dt * num)) (x : num) : bool :=
     if num_neqb sv (Fin 1) then
       let r1 := promote dd ts in
       fits r1 x && fits r1 sv && fits r1 (mul_num r1 x sv) && conv_ok dd r1 x && conv_ok ts r1 sv
-    else fits ts x && conv_ok dd ts x
+    else fits (promote dd ts) x && conv_ok dd (promote dd ts) x
   | None, Some (to, ov) =>
     if num_neqb ov (Fin 0) then
       let r := promote dd to in
       fits r x && fits r ov && fits r (add_num r x ov) && conv_ok dd r x && conv_ok to r ov
-    else fits to x && conv_ok dd to x
+    else fits (promote dd to) x && conv_ok dd (promote dd to) x
   | None, None => true
   end.
 
@@ -78,9 +78,10 @@ Fixpoint elems_ok (ex : list bool) (ms : list (option num)) (os : list (option o
   end.
 
 (* cfdm.read(mask=, unpack=)[...].array for a variable with raw values [raw] *)
-Definition check_read (c : dt * attrs * bool * bool * list num * obs) : bool :=
-  let '(d, A, mask, unpack, raw, o) := c in
-  let (mdt, mvals) := read_model d A mask unpack raw in
+(* the variable is stored with byte order bo: the model reads the stored cells *)
+Definition check_read (c : border * dt * attrs * bool * bool * list num * obs) : bool :=
+  let '(bo, d, A, mask, unpack, raw, o) := c in
+  let (mdt, mvals) := read_stored bo d A mask unpack (map (store bo d) raw) in
   match o with
   | Ok (odt, ovals) =>
     dt_eqb mdt odt && elems_ok (map (exact_elem d A unpack) raw) mvals ovals
@@ -114,9 +115,9 @@ Definition obs_ok (d : dt) (A : attrs) (unpack : bool) (raw : list num)
   | Err _ => false
   end.
 
-Definition check_child (c : dt * attrs * attrs * bool * list num * obs * obs) : bool :=
-  let '(db, Ab, Ap, unpack, raw, oread, oapp) := c in
-  obs_ok db Ab unpack raw (read_model db Ab true unpack raw) oread
+Definition check_child (c : border * dt * attrs * attrs * bool * list num * obs * obs) : bool :=
+  let '(bo, db, Ab, Ap, unpack, raw, oread, oapp) := c in
+  obs_ok db Ab unpack raw (read_stored bo db Ab true unpack (map (store bo db) raw)) oread
   && match apply_masking_bounds db db Ab Ap unpack raw, oapp with
      | Ok m, Ok _ => obs_ok db Ab unpack raw m oapp
      | Err e1, Err e2 => errk_eqb e1 e2
